@@ -20,3 +20,8 @@ pub(crate) mod support {
 mod h_count {
     include!(concat!(env!("UAZU_STAKKER_VERIF"), "/incrate/h_count.rs"));
 }
+
+#[allow(dead_code, unused_imports)]
+mod h_wakemodel {
+    include!(concat!(env!("UAZU_STAKKER_VERIF"), "/incrate/h_wakemodel.rs"));
+}
